@@ -22,6 +22,9 @@ pub struct AppendSpec {
     /// 0 = zero context, k>0 = k-th registered context
     pub ctx: usize,
     pub ephemeral: bool,
+    /// time:N TTL (pre-history only): the frame has expired, uncollected, when the run starts
+    #[serde(default)]
+    pub ttl_ms: Option<u64>,
 }
 
 #[derive(Serialize, Deserialize, Clone, Debug, PartialEq)]
@@ -51,6 +54,8 @@ pub enum Item {
     W(usize, AppendSpec),
     F(FollowerSpec),
     P(PollerSpec),
+    /// a thread that removes the registration frame of the k-th context (k >= 1)
+    R(usize),
 }
 
 #[derive(Serialize, Deserialize, Clone, Debug)]
@@ -62,6 +67,9 @@ pub struct Plan {
     pub policy: String,
     pub ticks: u32,
     pub max_decisions: u64,
+    /// use xs's real id generator (real clock) instead of the simulated one
+    #[serde(default)]
+    pub real_ids: bool,
     pub ops: Vec<Item>,
     #[serde(default)]
     pub choices: Vec<String>,
@@ -70,7 +78,7 @@ pub struct Plan {
 pub fn generate(seed: u64, prop: &str, thorough: bool) -> Plan {
     let mut rng = Rng::new(seed);
     let mut ops = Vec::new();
-    let nctx = rng.weighted(&[40, 45, 15]);
+    let nctx = if prop == "C07" { rng.range(1, 2) } else { rng.weighted(&[40, 45, 15]) };
     for _ in 0..nctx {
         ops.push(Item::Ctx);
     }
@@ -82,8 +90,9 @@ pub fn generate(seed: u64, prop: &str, thorough: bool) -> Plan {
     let topics = ["a", "b", "ab"];
     let mut spec = |rng: &mut Rng, eph_pct: u32| AppendSpec {
         topic: rng.pick(&topics).to_string(),
-        ctx: rng.below(nctx + 1),
+        ctx: if prop == "C07" && rng.chance(80) { rng.range(1, nctx) } else { rng.below(nctx + 1) },
         ephemeral: rng.chance(eph_pct),
+        ttl_ms: None,
     };
     let eph = match prop {
         "C02" => 10,
@@ -99,10 +108,20 @@ pub fn generate(seed: u64, prop: &str, thorough: bool) -> Plan {
         _ => (rcap.min(10) + 3).min(if thorough { 16 } else { 13 }),
     };
     for _ in 0..h {
-        ops.push(Item::Pre(spec(&mut rng, 0)));
+        let mut a = spec(&mut rng, 0);
+        if prop == "C11" && rng.chance(20) {
+            a.ttl_ms = Some(1);
+        }
+        ops.push(Item::Pre(a));
+    }
+    if prop == "C07" {
+        for _ in 0..rng.range(1, 2) {
+            ops.push(Item::R(rng.range(1, nctx)));
+        }
     }
     let nw = match prop {
         "C02" => rng.range(2, 4),
+        "C07" => rng.range(1, 3),
         _ => rng.range(1, 3),
     };
     for w in 0..nw {
@@ -113,6 +132,7 @@ pub fn generate(seed: u64, prop: &str, thorough: bool) -> Plan {
     }
     let nf = match prop {
         "C02" => rng.weighted(&[30, 50, 20]),
+        "C07" => rng.weighted(&[60, 40]),
         _ => rng.range(1, 2),
     };
     let mut any_hb = false;
@@ -152,6 +172,7 @@ pub fn generate(seed: u64, prop: &str, thorough: bool) -> Plan {
         }));
     }
     let np = match prop {
+        "C07" => 0,
         "C02" => rng.range(1, 3),
         _ => rng.weighted(&[60, 40]),
     };
@@ -177,6 +198,7 @@ pub fn generate(seed: u64, prop: &str, thorough: bool) -> Plan {
         policy: policy.to_string(),
         ticks: if any_hb { rng.range(2, 8) as u32 } else { 0 },
         max_decisions: 600,
+        real_ids: rng.chance(if prop == "C02" { 35 } else { 10 }),
         ops,
         choices: vec![],
     }
@@ -192,6 +214,8 @@ struct AppendRec {
     t_committed: Option<u64>,
     t_bcast: Option<u64>,
     frame: Option<Frame>,
+    rejected_at: Option<u64>,
+    reject_msg: String,
 }
 
 struct Follower {
@@ -206,6 +230,7 @@ struct Follower {
     closed: bool,
     live_task: Option<usize>,
     hist_idx: Option<usize>,
+    hist_delivering: HashSet<Scru128Id>,
     t_scanned: Option<u64>,
     live_received: u64,
     sent_at_sub: u64,
@@ -237,6 +262,14 @@ struct Run {
     results: Arc<Mutex<Vec<(usize, usize, Result<Frame, String>)>>>,
     bcast_total: u64,
     ticks_left: u32,
+    removers: Vec<Remover>,
+    pre_expired: HashSet<Scru128Id>,
+}
+
+struct Remover {
+    ctx: Scru128Id,
+    t_committed: Option<u64>,
+    t_done: Option<u64>,
 }
 
 fn ctx_of(ctxs: &[Scru128Id], k: usize) -> Scru128Id {
@@ -253,7 +286,9 @@ fn is_synthetic(f: &Frame) -> bool {
 
 impl Run {
     fn new(plan: &Plan, tag: &str) -> R<Run> {
-        let mut w = World::new(tag, plan.seed ^ 0x2e, &[("broadcast.cap", plan.bcap), ("read.cap", plan.rcap)], &["remove.enter"]);
+        let has_removers = plan.ops.iter().any(|i| matches!(i, Item::R(_)));
+        let pass: &[&'static str] = if has_removers { &[] } else { &["remove.enter", "remove.committed"] };
+        let mut w = World::new(tag, plan.seed ^ 0x2e, &[("broadcast.cap", plan.bcap), ("read.cap", plan.rcap), ("ids.real", plan.real_ids as usize)], pass);
         let path = w.dir.join("s0");
         std::fs::create_dir_all(&path).map_err(|e| Stop::Harness(e.to_string()))?;
         let store = w.open_store(&path)?;
@@ -272,15 +307,32 @@ impl Run {
                 _ => {}
             }
         }
+        let mut pre_expired: HashSet<Scru128Id> = HashSet::new();
         for it in &plan.ops {
             if let Item::Pre(a) = it {
                 let f = store
-                    .append(Frame::builder(a.topic.clone(), ctx_of(&ctxs, a.ctx)).build())
+                    .append(
+                        Frame::builder(a.topic.clone(), ctx_of(&ctxs, a.ctx))
+                            // (with xs's real id generator the id timestamps are not on the simulated clock)
+                            .maybe_ttl(if plan.real_ids { None } else { a.ttl_ms.map(|ms| TTL::Time(Duration::from_millis(ms))) })
+                            .build(),
+                    )
                     .map_err(|e| Stop::Harness(format!("setup: {}", e)))?;
+                if a.ttl_ms.is_some() && !plan.real_ids {
+                    pre_expired.insert(f.id);
+                }
                 pre.push(f);
                 w.ctrl.advance(1);
             }
         }
+        // every time:N frame of the pre-history has expired (and is not collected: the gc actor never runs here)
+        w.ctrl.advance(20);
+        let removers: Vec<Remover> = plan
+            .ops
+            .iter()
+            .filter_map(|i| if let Item::R(k) = i { Some(*k) } else { None })
+            .map(|k| Remover { ctx: ctx_of(&ctxs, k), t_committed: None, t_done: None })
+            .collect();
         let nw = plan.ops.iter().filter_map(|i| if let Item::W(w, _) = i { Some(*w + 1) } else { None }).max().unwrap_or(0);
         let mut appends = Vec::new();
         let mut writer_bases = Vec::new();
@@ -322,6 +374,7 @@ impl Run {
                     closed: false,
                     live_task: None,
                     hist_idx: None,
+                    hist_delivering: HashSet::new(),
                     t_scanned: None,
                     live_received: 0,
                     sent_at_sub: 0,
@@ -358,6 +411,8 @@ impl Run {
             results: Arc::new(Mutex::new(Vec::new())),
             bcast_total: 0,
             ticks_left: plan.ticks,
+            removers,
+            pre_expired,
         })
     }
 
@@ -389,6 +444,18 @@ impl Run {
             });
             self.w.wait()?;
         }
+        for r in &self.removers {
+            let store = self.store.clone();
+            let id = r.ctx;
+            xs::verif::expect_thread("remover");
+            std::thread::spawn(move || {
+                let _scope = xs::verif::thread_scope("remover");
+                let store = store;
+                let _ = store.remove(&id);
+                xs::verif::point("remover.end", 0);
+            });
+            self.w.wait()?;
+        }
         Ok(())
     }
 
@@ -417,12 +484,37 @@ impl Run {
                     a.frame = Some(f);
                     self.writer_progress[wi] = self.writer_progress[wi].max(i + 1);
                 }
-                Err(e) => return harness(format!("writer {} append {} failed: {}", wi, i, e)),
+                Err(e) => {
+                    if self.removers.is_empty() {
+                        return harness(format!("writer {} append {} failed: {}", wi, i, e));
+                    }
+                    let a = &mut self.appends[idx];
+                    a.rejected_at = Some(t);
+                    a.reject_msg = e;
+                    self.writer_progress[wi] = self.writer_progress[wi].max(i + 1);
+                    self.w.probe("append:rejected");
+                }
+            }
+        }
+        for (kind, kidx, site, _) in parked.iter() {
+            if *kind == "remover" && *kidx < self.removers.len() {
+                let r = &mut self.removers[*kidx];
+                if *site == "remove.committed" && r.t_committed.is_none() {
+                    r.t_committed = Some(t);
+                }
+                if *site == "remover.end" {
+                    if r.t_committed.is_none() {
+                        r.t_committed = Some(t);
+                    }
+                    if r.t_done.is_none() {
+                        r.t_done = Some(t);
+                    }
+                }
             }
         }
         let inside = parked
             .iter()
-            .filter(|(k, _, s, _)| *k == "writer" && (*s == "append.id" || *s == "append.committed" || *s == "append.broadcast"))
+            .filter(|(k, _, s, _)| *k == "writer" && (*s == "append.id" || *s == "append.committed" || *s == "append.sending" || *s == "append.broadcast"))
             .count();
         let waiting = parked.iter().filter(|(k, _, s, _)| *k == "writer" && *s == "append.enter").count();
         if inside >= 2 || (inside >= 1 && waiting >= 1) {
@@ -456,6 +548,15 @@ impl Run {
                     }
                     a.id = Some(Scru128Id::from_u128(detail));
                     if a.t_committed.is_none() {
+                        a.t_committed = Some(t);
+                    }
+                }
+                "append.sending" => {
+                    if a.t_begin.is_none() {
+                        a.t_begin = Some(t);
+                    }
+                    a.id = Some(Scru128Id::from_u128(detail));
+                    if !a.spec_ephemeral && a.t_committed.is_none() {
                         a.t_committed = Some(t);
                     }
                 }
@@ -501,6 +602,10 @@ impl Run {
                 }
                 if (site == "hist.scanned" || site == "hist.done") && f.hist_idx == Some(kidx) && f.t_scanned.is_none() {
                     f.t_scanned = Some(t);
+                }
+                if site == "hist.deliver" && f.hist_idx == Some(kidx) {
+                    // the history thread is about to deliver this frame
+                    f.hist_delivering.insert(Scru128Id::from_u128(detail));
                 }
             }
         }
@@ -746,7 +851,7 @@ impl Run {
                     extra_kind.push((3, 0));
                 }
             }
-            let picked = self.w.decide(chooser, &extra, &|e| e.site != "writer.end" && e.actor_kind != "gc")?;
+            let picked = self.w.decide(chooser, &extra, &|e| e.site != "writer.end" && e.site != "remover.end" && e.actor_kind != "gc")?;
             match picked {
                 Picked::Nothing => break,
                 Picked::Ran(label) => {
@@ -781,7 +886,7 @@ impl Run {
         // release the writers parked at their end point
         loop {
             self.w.wait()?;
-            let en: Vec<_> = self.w.ctrl.enabled().into_iter().filter(|e| e.site == "writer.end").collect();
+            let en: Vec<_> = self.w.ctrl.enabled().into_iter().filter(|e| e.site == "writer.end" || e.site == "remover.end").collect();
             if en.is_empty() {
                 break;
             }
@@ -804,7 +909,14 @@ impl Run {
                 continue;
             }
             // pre-history was fully appended before any follower started
-            let st = if f.spec.tail { 0 } else { 2 };
+            let removed_reg = self.removers.iter().any(|r| r.ctx == fr.id);
+            let st = if f.spec.tail || self.pre_expired.contains(&fr.id) {
+                0
+            } else if removed_reg {
+                1
+            } else {
+                2
+            };
             all.push((fr.clone(), st));
         }
         for a in &self.appends {
@@ -849,7 +961,38 @@ impl Run {
                 return violation("follow/synthetic-stored", format!("a synthetic frame is in the store: {}", fmt_frame(f)));
             }
         }
-        let mut stored_expected: Vec<Frame> = self.pre.clone();
+        let removed: HashSet<Scru128Id> = self.removers.iter().filter(|r| r.t_committed.is_some()).map(|r| r.ctx).collect();
+        // context registry vs stored frames under concurrent removal of a registration
+        for a in &self.appends {
+            if a.ctx == ZERO_CONTEXT {
+                continue;
+            }
+            let t_rc = self.removers.iter().filter(|r| r.ctx == a.ctx).filter_map(|r| r.t_committed).min();
+            if let (Some(fr), Some(tb), Some(rc)) = (&a.frame, a.t_begin, t_rc) {
+                if tb > rc {
+                    return violation(
+                        "append/accepted-unregistered",
+                        format!(
+                            "{} was accepted although the registration frame of its context had been removed (removal committed at decision {}, append began at decision {})",
+                            fmt_frame(fr),
+                            rc,
+                            tb
+                        ),
+                    );
+                }
+                self.w.probes.entry("ctx:append-raced-removal".to_string()).and_modify(|x| *x += 1).or_insert(1);
+            }
+            if let Some(tr) = a.rejected_at {
+                let began_removal = self.removers.iter().filter(|r| r.ctx == a.ctx).filter_map(|r| r.t_committed).min();
+                if began_removal.map(|rc| tr < rc).unwrap_or(true) {
+                    return violation(
+                        "append/rejected-valid",
+                        format!("an append into context {} was rejected ({}) at decision {} although its registration frame still existed (removal committed at {:?})", short_ctx(&a.ctx), a.reject_msg, tr, began_removal),
+                    );
+                }
+            }
+        }
+        let mut stored_expected: Vec<Frame> = self.pre.iter().filter(|f| !removed.contains(&f.id) && !self.pre_expired.contains(&f.id)).cloned().collect();
         for a in &self.appends {
             if let Some(fr) = &a.frame {
                 if !a.spec_ephemeral {
@@ -907,7 +1050,7 @@ impl Run {
         for (k, f) in self.followers.iter().enumerate() {
             let ids: Vec<String> = f.got.iter().map(|x| if is_synthetic(x) { format!("<{}>", x.topic) } else { x.id.to_string() }).collect();
             let line = format!("obs follower{} closed={} [{}]", k, f.closed, ids.join(","));
-            if self.w.keep_trace {
+            if self.w.keep_trace && !self.plan.real_ids {
                 self.w.trace.push(line);
             }
         }
@@ -1083,6 +1226,15 @@ impl Run {
             }
             if let Some(ti) = th.first() {
                 self.w.probes.entry("threshold:seen".to_string()).and_modify(|x| *x += 1).or_insert(1);
+                // nothing that came through the live task precedes the threshold
+                for (pos, x) in f.got.iter().enumerate() {
+                    if pos < *ti && !is_synthetic(x) && !f.hist_delivering.contains(&x.id) {
+                        return violation(
+                            "follow/threshold-late",
+                            format!("{} received {} from the live subscription before the threshold marker", desc, fmt_frame(x)),
+                        );
+                    }
+                }
                 // everything that existed when the read began comes before it
                 let d = f.started_at.unwrap();
                 let mut existed: Vec<&Frame> = self.pre.iter().collect();
